@@ -36,7 +36,10 @@
  *           b<ss> fork() succeeded, a child now runs for delivery ss | r<ss><wwww> wait_nohang() handed the program the status
  *           wwww of the child that was forked for delivery ss | p<ss><wwww> the program calls report() for delivery ss with
  *           wait status wwww
- *           (a trace that does not end in e<code> means the program was aborted by a sanitizer while running this case) */
+ *           (a trace that does not end in e<code> means the program was aborted by a sanitizer while running this case)
+ * session 4 — out of memory while a command is read (flagabort): cases "A <k> <plan> <oom> <script>", output
+ *   "A <l|r> <plan> <oom> <script> <trace>"; oom = '.'-separated decimal ordinals (counted from 0 over the whole case) of the
+ *   stralloc_append(&messid/&sender/&recip,&ch) calls of getcmd() that fail ("-" = none); script and trace as above */
 #include "hcommon.h"
 #include "substdio.h"
 #include <errno.h>
@@ -63,6 +66,9 @@ static int h_coe(int fd) { return 0; }
 static int h_spawn(int fdmess, int fdout, char *s, char *r, int at);
 static void h_report(substdio *ss, int wstat, char *s, int len);
 
+#include "stralloc.h"
+static int h_stralloc_append(stralloc *sa, const char *in);
+#define stralloc_append h_stralloc_append
 #define _exit(x) h_exit(x)
 #define main spawn_main
 #define read h_read
@@ -94,6 +100,7 @@ static void h_report(substdio *ss, int wstat, char *s, int len);
 #include "qmail-rspawn.c"
 #define KIND 'r'
 #endif
+#undef stralloc_append
 #undef _exit
 #undef read
 #undef write
@@ -109,6 +116,15 @@ static void h_report(substdio *ss, int wstat, char *s, int len);
 #undef coe
 
 /* ---------------------------------------------------------------- scripted world */
+/* failing allocations in getcmd(): ordinals of the stralloc_append calls on messid/sender/recip that return 0 */
+static unsigned oom_list[64]; static int oom_n, a_mode; static unsigned append_calls;
+static int h_stralloc_append(stralloc *sa, const char *in) {
+  if (sa == &messid || sa == &sender || sa == &recip) {
+    unsigned k = append_calls++;
+    for (int i = 0; i < oom_n; i++) if (oom_list[i] == k) { errno = ENOMEM; return 0; }
+  }
+  return stralloc_append(sa, in);
+}
 static hbuf wbuf;            /* pending (merged) output */
 static int first_ev;
 static void ev_flush(void);
@@ -274,7 +290,11 @@ static void h_report(substdio *ss, int wstat, char *s, int len) {
 }
 
 static void one(const char *script, const unsigned char *plan, size_t pn) {
-  fprintf(h_out, "S %c ", KIND); h_hex(plan, pn); fprintf(h_out, " %s ", *script ? script : "-");
+  fprintf(h_out, "%c %c ", a_mode ? 'A' : 'S', KIND); h_hex(plan, pn);
+  if (a_mode) { fputc(' ', h_out); if (!oom_n) fputc('-', h_out); for (int i = 0; i < oom_n; i++) fprintf(h_out, "%s%u", i ? "." : "", oom_list[i]); }
+  else oom_n = 0;
+  append_calls = 0;
+  fprintf(h_out, " %s ", *script ? script : "-");
   plan_p = plan; plan_n = pn; plan_pos = 0; cur_plan = 0;
   sc_p = script; pend_fd = -1; wait_pid_v = 0; npipes = nforks = stdin_eof = nops = 0;
   memset(fd_closed, 0, sizeof fd_closed); memset(world_pid, 0, sizeof world_pid); sig_pending = 0;
@@ -333,6 +353,15 @@ int main(int argc, char **argv) {
   if (argc > 1 && !strcmp(argv[1], "-")) {
     static char line[800000], sc[800000], pl[4000], tag[16], kind[16]; static unsigned char pb[2000];
     while (fgets(line, sizeof line, stdin)) {
+      if (line[0] == 'A' && line[1] == ' ') {
+        static char om[4000];
+        if (sscanf(line, "%15s %15s %3999s %3999s %799999s", tag, kind, pl, om, sc) != 5 || kind[0] != KIND) continue;
+        int pn = 0; if (pl[0] != '-') for (char *h = pl; h[0] && h[1]; h += 2) pb[pn++] = hexv(h[0]) * 16 + hexv(h[1]);
+        oom_n = 0;
+        if (om[0] != '-') for (char *t = strtok(om, "."); t && oom_n < 64; t = strtok(0, ".")) oom_list[oom_n++] = (unsigned)strtoul(t, 0, 10);
+        a_mode = 1; one(sc[0] == '-' ? "" : sc, pb, pn); a_mode = 0;
+        continue;
+      }
       if (sscanf(line, "%15s %15s %3999s %799999s", tag, kind, pl, sc) != 4 || tag[0] != 'S' || kind[0] != KIND) continue;
       int pn = 0; if (pl[0] != '-') for (char *h = pl; h[0] && h[1]; h += 2) pb[pn++] = hexv(h[0]) * 16 + hexv(h[1]);
       one(sc[0] == '-' ? "" : sc, pb, pn);
@@ -504,6 +533,47 @@ int main(int argc, char **argv) {
       if (!h_below(3)) s_eof();
     }
     one(s_str(), pl, pn);
+  }
+  /* (7) out of memory while a command is read (session 4).  (a) seed-independent: three commands (slot 0, slot 1, slot 0
+   *     again) with every single stralloc_append call failing, every pair among the first command's calls and one of the
+   *     later ones, read whole / cut after every byte of the first command, plans {all fine, second file foreign}, the
+   *     children exiting afterwards; (b) seeded random: 1..4 commands from the lists, 0..3 failing calls, random cuts,
+   *     random child events. */
+  {
+    unsigned char c3[3][64]; size_t l3[3], tot = 0;
+    l3[0] = mkcmd(c3[0], 0, "1", 1, "s@h", "r@h"); l3[1] = mkcmd(c3[1], 1, "22/45", 5, "", "x@y"); l3[2] = mkcmd(c3[2], 0, "7", 1, "#@[]", "@h");
+    unsigned char all[256]; for (int i = 0; i < 3; i++) { memcpy(all + tot, c3[i], l3[i]); tot += l3[i]; }
+    unsigned ncalls = (unsigned)tot - 3;
+    for (unsigned a = 0; a < ncalls; a++) for (unsigned b = a; b < ncalls; b += (b == a ? 1 : 5)) for (size_t cut = 0; cut <= l3[0]; cut += (a % 3 == 0 ? 1 : 4))
+      for (int pv = 0; pv < 2; pv++, id++) {
+        if ((int)(id % nshards) != shard) continue;
+        oom_n = 0; oom_list[oom_n++] = a; if (b != a) oom_list[oom_n++] = b;
+        s_reset();
+        if (cut) s_cmd(all, cut);
+        s_cmd(all + cut, tot - cut);
+        s_out(0, (const unsigned char *)"Kok\n", 4); s_exit(1, 0); s_exit(0, pv ? 100 << 8 : 0);
+        pl[0] = 0; pl[1] = pv ? 4 : 0; pl[2] = 0;
+        a_mode = 1; one(s_str(), pl, 3); a_mode = 0;
+      }
+    for (int r = 0; r < nrandom / 4; r++) {
+      if ((r % nshards) != shard) continue;
+      static unsigned char stream[4096]; size_t sn = 0; int nc = 1 + h_below(4);
+      for (int q = 0; q < nc; q++) {
+        const char *mid = messids[h_below(6) ? h_below(4) : h_below(NEL(messids))];
+        sn += mkcmd(stream + sn, h_below(6) ? (int)h_below(3) : delnums[h_below(NEL(delnums))], mid, strlen(mid),
+                    senders[h_below(NEL(senders))], recips[h_below(NEL(recips))]);
+      }
+      if (!h_below(5) && sn > 2) sn -= 1 + h_below(2);                 /* the last command is cut */
+      oom_n = h_below(4);
+      for (int i = 0; i < oom_n; i++) oom_list[i] = h_below(h_below(3) ? (unsigned)sn + 2 : 8);
+      int pn = h_below(3); for (int i = 0; i < pn; i++) pl[i] = h_below(3) ? 0 : h_below(9);
+      s_reset();
+      { size_t pos = 0; while (pos < sn) { size_t k = 1 + h_below(h_below(3) ? 1024 : 6); if (k > sn - pos) k = sn - pos; s_cmd(stream + pos, k); pos += k;
+          if (!h_below(6)) { int sl = h_below(3); if (h_below(2)) s_out(sl, (const unsigned char *)"Kdone\n", 6); else s_exit(sl, h_below(3) ? 0 : (int)(h_below(256) << 8)); } } }
+      if (!h_below(3)) s_eof();
+      a_mode = 1; one(s_str(), pl, pn); a_mode = 0;
+    }
+    oom_n = 0;
   }
   fflush(h_out);
   return 0;
